@@ -115,8 +115,10 @@ EndVerdict(e) ==
   \* the stream is closed exactly once, after the last frame (a plain response needs no Complete)
   \cup Tag(IF plain THEN e.complete > 1 ELSE ~(e.complete = 1 /\ e.completeLast), "Terminates")
   \cup Tag(e.overlap, "FramesAtomic")
-  \* an incremental item must be applicable at its announced path (also judged when a failure was injected)
-  \cup Tag(IsBroken(doc), "Applies")
+  \* an incremental item must be applicable at its announced path.  The statement quantifies over inputs and
+  \* schedules, not over subgraph faults: with an injected failure only the stream-protocol clauses above are judged,
+  \* an inapplicable item is reported for information (field "info"), never as part of the verdict
+  \cup Tag(~e.faulted /\ IsBroken(doc), "Applies")
   \cup Tag(e.cmp /\ ~IsBroken(doc) /\ doc # e.expected, "Reconstructs")
   \cup Tag(e.cmp /\ e.ifFalse # e.expected, "IfFalseEqual")
 
@@ -125,7 +127,8 @@ T_End ==
   /\ LET v == EndVerdict(Ev) IN
        /\ last' = v
        /\ PrintT(ToJson([kind |-> "verdict", id |-> Ev.id, verdict |-> SelectSeq(AllTags, LAMBDA t : t \in v),
-                          model |-> SetToSeqS(conf)]))
+                          model |-> SetToSeqS(conf),
+                          info |-> IF Ev.faulted /\ IsBroken(doc) THEN <<"inapplicable item under an injected failure">> ELSE <<>>]))
   /\ UNCHANGED <<s, doc, paths, plain, extra, plan, conf>>
 
 TraceNext == T_Case \/ T_Frame \/ T_End
